@@ -436,6 +436,84 @@ def kind_checks(ex: Explore):
                     what=f'@beartype on a {k} function ({variant} wrapper) yields a callable inspect reports as {got}, not {want}',
                     replay={'kind_check': k, 'variant': variant, 'expected': want, 'actual': got}))
     ex.extra['inspect_kinds_of_decorated'] = report
+    adapter_checks(ex)
+
+
+def adapter_checks(ex: Explore):
+    """What @beartype decorates need not be the function that carries the hints: a functools.wraps closure with the
+    signature (*args, **kwargs) around it may be of ANOTHER kind (an `async def` adapter around a plain function, a
+    generator adapter, …). The wrapper must take its kind from the callable it wraps and calls."""
+    import functools
+    from beartype import beartype
+
+    def inner_plain(x: int) -> int:
+        return x + 1
+
+    def inner_noret(x: int):
+        return x + 1
+
+    def mk(kind, inner):
+        if kind == 'coroutine':
+            @functools.wraps(inner)
+            async def adapter(*args, **kwargs):
+                return inner(*args, **kwargs)
+        elif kind == 'generator':
+            @functools.wraps(inner)
+            def adapter(*args, **kwargs):
+                yield inner(*args, **kwargs)
+        elif kind == 'asyncgen':
+            @functools.wraps(inner)
+            async def adapter(*args, **kwargs):
+                yield inner(*args, **kwargs)
+        else:
+            @functools.wraps(inner)
+            def adapter(*args, **kwargs):
+                return inner(*args, **kwargs)
+        return adapter
+
+    def drive1(kind, f):
+        """first observable result of calling f(41)"""
+        try:
+            o = f(41)
+            if kind == 'coroutine':
+                try:
+                    o.send(None)
+                except StopIteration as e:
+                    return ['val', repr(e.value)]
+                return ['suspended']
+            if kind == 'generator':
+                return ['val', repr(next(o))]
+            if kind == 'asyncgen':
+                try:
+                    o.asend(None).send(None)
+                except StopIteration as e:
+                    return ['val', repr(e.value)]
+                return ['suspended']
+            return ['val', repr(o)]
+        except BaseException as e:   # noqa: BLE001
+            return ['exc', type(e).__name__]
+    report = {}
+    for kind in ('plain', 'coroutine', 'generator', 'asyncgen'):
+        # (a generator adapter may not inherit a return hint `int`: beartype rightly refuses that at decoration time)
+        inners = (('inner(x: int)', inner_noret),) + ((('inner(x: int) -> int', inner_plain),) if kind in ('plain', 'coroutine') else ())
+        for iname, inner in inners:
+            und = mk(kind, inner)
+            try:
+                dec = beartype(mk(kind, inner))
+            except Exception as e:   # noqa: BLE001
+                report[f'{kind}-adapter/{iname}'] = ['decoration raised', type(e).__name__]
+                continue
+            ex.evaluations += 2
+            want_k, got_k = T.inspect_kind(und), T.inspect_kind(dec)
+            want_r, got_r = drive1(kind, und), drive1(kind, dec)
+            report[f'{kind}-adapter/{iname}'] = [got_k, got_r]
+            if got_k != want_k or got_r != want_r:
+                ex.failures.append(Failure(
+                    key=f'C08:adapter:{kind}-around-{iname}:{want_k}->{got_k}',
+                    what=f'@beartype on a functools.wraps (*args, **kwargs) {kind} adapter around a {iname} function: inspect kind '
+                         f'{want_k} -> {got_k}, first result of f(41) {want_r} -> {got_r}',
+                    replay={'adapter_check': kind, 'inner': iname, 'expected': [want_k, want_r], 'actual': [got_k, got_r]}))
+    ex.extra['adapters'] = report
 
 
 # ---------------------------------------------------------------------------------------------------------
@@ -549,6 +627,14 @@ def explore(ck: Check, tier: str, seed: int, scale: float = 1.0) -> Explore:
 def replay(data: dict) -> int:
     xgen.extract()
     T.quiet()
+    if 'adapter_check' in data:
+        ex = Explore()
+        adapter_checks(ex)
+        hits = [f for f in ex.failures if f.replay.get('adapter_check') == data['adapter_check'] and f.replay.get('inner') == data['inner']]
+        for f in hits:
+            print('replay: property violated on the real code:', f.what)
+        print('adapters:', ex.extra.get('adapters'))
+        return 1 if hits else 0
     if 'kind_check' in data:
         ex = Explore()
         kind_checks(ex)
